@@ -434,7 +434,11 @@ class _MSubspec:
 
     def glomit(self, target, scope):
         match = scope[glom](target, self.spec, scope)
-        if match:
+        try:
+            truthy = bool(match)
+        except Exception:  # (no truth value - an array-like: not a match)
+            truthy = False
+        if truthy:
             return target
         raise MatchError('expected truthy value from {0!r}, got {1!r}', self.spec, match)
 
@@ -589,7 +593,11 @@ class _MType:
         return "M"
 
     def glomit(self, target, spec):
-        if target:
+        try:
+            truthy = bool(target)
+        except Exception:  # (no truth value - an array-like: not a match)
+            truthy = False
+        if truthy:
             return target
         raise MatchError("{0!r} not truthy", target)
 
@@ -627,7 +635,11 @@ class Optional:
         self.key, self.default = key, default
 
     def glomit(self, target, scope):
-        if target != self.key:
+        try:
+            differs = bool(target != self.key)
+        except Exception:  # (a comparison that cannot be evaluated: no match)
+            differs = True
+        if differs:
             raise MatchError("target {0} != spec {1}", target, self.key)
         return target
 
